@@ -137,6 +137,8 @@ type assignedCase3 struct {
 	ScoredFirst bool    `json:"scored_before_assignment"`
 	T           [3]int  `json:"temporal_assigned"`
 	E           [11]int `json:"environmental_assigned"`
+	// B: when set, the base fields are assigned as well (values by index, AV AC PR UI S C I A)
+	B *[8]int `json:"base_assigned,omitempty"`
 }
 
 var checkC03Assigned = register("C03/decoded-then-assigned", func(c assignedCase3) string {
@@ -146,6 +148,9 @@ var checkC03Assigned = register("C03/decoded-then-assigned", func(c assignedCase
 	}
 	x := spec.IdxV3(ref)
 	f := fieldCase3{Ver: x.Ver, B: x.B, T: c.T, E: c.E}
+	if c.B != nil {
+		f.B = *c.B
+	}
 	if !inRange3(f) {
 		return ""
 	}
@@ -156,6 +161,9 @@ var checkC03Assigned = register("C03/decoded-then-assigned", func(c assignedCase
 	if c.ScoredFirst {
 		o.E.Score()
 		o.E.Severity()
+	}
+	if c.B != nil {
+		bind.SetV3Base(o.E.Base, x.Ver, *c.B)
 	}
 	bind.SetV3Temporal(o.E.Temporal, c.T)
 	bind.SetV3Env(o.E, c.E)
@@ -225,7 +233,7 @@ func c03Classes(f fieldCase3, cl map[string]int64) (nontrivial bool) {
 func TestC03(t *testing.T) {
 	c := begin(t, "C03")
 	defer c.end()
-	c.rec.F.Rule = "layer1 (complete): 2 versions x 64 (CR,IR,AR) x 27 (MC,MI,MA) x 2 (MS) x 48 (MAV,MAC,MPR,MUI) x 100 (E,RL,RC) = 33,177,600 objects with every Modified metric defined and every base metric set to a *different* value, built by assigning exported fields; layer2: the version x base x environmental product (11,466,178,560 points; quick: 16,000,000 points chosen by a seeded pseudo-random bijection (Feistel network) of the index space, distinct by construction; thorough: complete), temporal metrics chosen by a hash of the index; layer3: rapid well-formed environmental vectors through Decode (random order, omission, explicit X); layer4: for every version x base combination, the vector whose eight Modified metrics are written out equal to the base metrics, and its variants with exactly one Modified metric changed or one requirement raised, through Decode (quick: a quarter of the variants). layer5: on one object, for every pair of the 23 fields, every pair of start values and every pair of end values in three contexts: assign, score, re-assign exactly those two fields, score again. layer6: vectors writing none, one, two or all but one of the environmental metrics are decoded (sometimes scored), then other environmental fields are assigned each of their values, and the score is compared with the exact model of the fields then held. Non-trivial: layer1 all with modified impact > 0; layer2 at least one Modified metric X (falls back to the base value) and at least one defined; layer3 at least one environmental metric defined."
+	c.rec.F.Rule = "layer1 (complete): 2 versions x 64 (CR,IR,AR) x 27 (MC,MI,MA) x 2 (MS) x 48 (MAV,MAC,MPR,MUI) x 100 (E,RL,RC) = 33,177,600 objects with every Modified metric defined and every base metric set to a *different* value, built by assigning exported fields; layer2: the version x base x environmental product (11,466,178,560 points; quick: 16,000,000 points chosen by a seeded pseudo-random bijection (Feistel network) of the index space, distinct by construction; thorough: complete), temporal metrics chosen by a hash of the index; layer3: rapid well-formed environmental vectors through Decode (random order, omission, explicit X); layer4: for every version x base combination, the vector whose eight Modified metrics are written out equal to the base metrics, and its variants with exactly one Modified metric changed or one requirement raised, through Decode (quick: a quarter of the variants). layer5: on one object, for every pair of the 23 fields, every pair of start values and every pair of end values in three contexts: assign, score, re-assign exactly those two fields, score again. layer6: vectors writing none, one, two or all but one of the environmental metrics are decoded (sometimes scored), then other environmental fields are assigned each of their values, each written environmental metric is re-assigned every other value, and each base field is assigned every other value, and the score is compared with the exact model of the fields then held. Non-trivial: layer1 all with modified impact > 0; layer2 at least one Modified metric X (falls back to the base value) and at least one defined; layer3 at least one environmental metric defined."
 	c.rec.F.Assumptions = []string{"reference model: exact rational MISS with 0.915 cap, version-specific changed-scope polynomial, exact exploitability with PR weights by effective scope, double Roundup (harness/spec)", "objects built from the exported constructor plus exported-field assignment, as property C03 allows"}
 
 	// ---- layer 1 ---------------------------------------------------------------------
@@ -521,6 +529,34 @@ func TestC03(t *testing.T) {
 							cs.E[g] = 1 + (k/7)%(len(envM[g].Codes)-1)
 						}
 					}
+					evals++
+					evalEnum(c, "decoded-then-assigned", cs, checkC03Assigned, &nviol)
+				}
+			}
+			// a metric the vector *did* write is assigned every other value (X included) ...
+			for f, wv := range written {
+				for v := 0; v < len(envM[f].Codes) && nviol == 0; v++ {
+					k++
+					if v == wv || !mine(k) {
+						continue
+					}
+					cs := assignedCase3{Input: vec, NilRecv: k%5 == 0, ScoredFirst: k%3 == 0, T: x.T, E: x.E}
+					cs.E[f] = v
+					evals++
+					evalEnum(c, "decoded-then-assigned", cs, checkC03Assigned, &nviol)
+				}
+			}
+			// ... and every base field is assigned every other value under the decoded
+			// environmental metrics (a Modified metric that is X follows the new base value)
+			for bf := 0; bf < 8; bf++ {
+				for v := 0; v < baseDims[bf] && nviol == 0; v++ {
+					k++
+					if v == x.B[bf] || !mine(k) {
+						continue
+					}
+					nb := x.B
+					nb[bf] = v
+					cs := assignedCase3{Input: vec, NilRecv: k%5 == 0, ScoredFirst: k%3 == 0, T: x.T, E: x.E, B: &nb}
 					evals++
 					evalEnum(c, "decoded-then-assigned", cs, checkC03Assigned, &nviol)
 				}
